@@ -16,6 +16,8 @@ from fractions import Fraction
 
 import numpy as np
 
+from pwlib.share import shcopy
+
 from pwlib.canon import flat
 from pwlib.engine import Case
 from pwlib.proto import Line, parse_num
